@@ -189,7 +189,36 @@ def rc4(ctx, rid):
            "rule documents are dropped while the rule directories are read (%s): which same-id document survives depends on the order of the directory walk" % drops[:3], where=f0.loc())
 
 
+THIN = {"dedup", "dedup_by", "dedup_by_key", "retain", "retain_mut", "truncate", "drain", "remove", "swap_remove", "pop", "clear", "split_off"}
+
+
+def rc5(ctx, rid):
+    """a match that the scan found reaches the front ends: no Vec of NodeMatch / Diff is thinned (dedup, retain, truncate, …) anywhere in
+    the scanning crates.  (Overlapping fixes are dropped by the accept loops, which skip while iterating and are checked separately;
+    'one report per position' style de-duplication drops the inner matches of left-nested chains, `a.b` inside `a.b.c`.)"""
+    prog = ctx.prog
+    n = 0
+    bad = []
+    for f in sorted(prog.fns.values(), key=lambda f: f.id):
+        if f.crate not in ("ast_grep_config", "ast_grep", "ast_grep_lsp", "ast_grep_core"):
+            continue
+        for c in f.calls:
+            if c.bb not in f.live_blocks or not c.args or c.args[0][0] == "k":
+                continue
+            ty = f.locals[c.args[0][1][0]]
+            if "Vec<" in ty and ("NodeMatch<" in ty or "::Diff<" in ty):
+                n += 1
+                if c.name in THIN:
+                    bad.append("%s at %s" % (c.name, f.loc(c.line)))
+    ctx.floor(rid, "calls on vectors of matches / diffs examined", n, 10)
+    ctx.ob(rid, "vectors of matches and diffs are never thinned", not bad,
+           "no dedup/retain/truncate/drain/remove on a Vec of NodeMatch or Diff in core, config, cli, lsp" if not bad else
+           "matches are removed from a result vector (%s): findings that the rule matches node by node are not reported" % bad[:3])
+
+
 def invariants(ctx, rid, which=("rc1", "rc2", "rc3", "rc4")):
+    if "rc5" in which:
+        rc5(ctx, rid)
     if "rc1" in which:
         rc1(ctx, rid)
     if "rc2" in which:
